@@ -125,7 +125,7 @@ def gen_text(rng, lo, hi):
     return t
 
 
-def tree_for(maps):
+def tree_for(maps, sidecars=None):
     """maps: {latin-1 path: bytes}.  Content of every depth: some files, a sub directory."""
     tree = []
     for d in DEPTH_DIRS:
@@ -137,9 +137,82 @@ def tree_for(maps):
             tree.append({"path": p + name, "data": data})
     for path, data in maps.items():
         tree.append({"path": path, "data": lat(data)})
+    for path, data in (sidecars or {}).items():
+        tree.append({"path": path, "data": lat(data)})
     for e in tree:
         e["mtime"] = 1_700_000_000
     return tree
+
+
+def gen_abstract(rng):
+    """a plain abstract: 1-3 lines of text, no white space at line ends, at most one blank line inside"""
+    ls = [gen_text(rng, 1, 30) for _ in range(rng.randrange(1, 4))]
+    if len(ls) > 1 and rng.random() < 0.2:
+        ls.insert(1, b"")
+    return b"\n".join(ls) + (b"\n" if rng.random() < 0.8 else b"")
+
+
+def gen_sidecars(rng, density):
+    """sidecar files (doc/pygopherd.txt ABSTRACTS AND INFO; [GopherEntry] eaexts): <dir>/.abstract, <file>.abstract, and
+    the other extended-attribute files, for directories, ordinary files and the stand-alone map files alike"""
+    sc = {}
+    for d in DEPTH_DIRS:
+        p = d + "/" if d else ""
+        for name in (".abstract", "a.txt.abstract", "sub/.abstract", "x.gophermap.abstract", "b b.txt.abstract",
+                     "img.gif.abstract", "sub/s.txt.abstract"):
+            if rng.random() < density:
+                sc[p + name] = gen_abstract(rng)
+        for name in (".keywords", "a.txt.keywords", ".ask", ".3d", "x.gophermap.keywords", "a.txt.ask"):
+            if rng.random() < density / 2:
+                sc[p + name] = gen_abstract(rng)
+    return sc
+
+
+def abstract_lines(data):
+    """the lines of an abstract file as they are shown (the file is 'interpreted as the abstract')"""
+    if data is None:
+        return []
+    ls = u(data).split("\n")
+    if ls and ls[-1] == "":
+        ls.pop()
+    return ls
+
+
+def tree_index(tree):
+    """selector -> ('dir', None) | ('file', bytes) for a symlink-free scratch tree"""
+    idx = {"": ("dir", None)}
+    for e in tree:
+        parts = e["path"].split("/")
+        for k in range(1, len(parts)):
+            idx.setdefault("/" + u("/".join(parts[:k]).encode("latin-1")), ("dir", None))
+        sel = "/" + u(e["path"].encode("latin-1"))
+        idx[sel] = ("dir", None) if e.get("kind") == "dir" else ("file", e.get("data", "").encode("latin-1"))
+    return idx
+
+
+def expected_layout(idx, absmode, selector, is_file, entries, proto):
+    """What a listing consists of besides the entries (config comments of abstract_headers / abstract_entries):
+    first the lines of the LISTED object's own abstract (<dir>/.abstract for a directory, <file>.abstract for a
+    stand-alone map file), then every entry, each followed by the lines of its own abstract when it is a link to an
+    existing local file or directory that has one.  Returns [("hdr", text) | ("line", i) | ("abs", i, text)]."""
+    if absmode is None:
+        return [("line", i) for i in range(len(entries))]
+    headers, mode = absmode
+    doabs = mode == "always" or (mode == "unsupported" and proto not in ("gopherplus", "sgopherplus"))
+    lay = []
+    if headers:
+        key = selector + ".abstract" if is_file else ("" if selector == "/" else selector) + "/.abstract"
+        lay += [("hdr", t) for t in abstract_lines(idx.get(key, (None, None))[1])]
+    for i, e in enumerate(entries):
+        lay.append(("line", i))
+        if doabs and e["host"] is None and e["port"] is None:
+            sel = e["selector"]
+            canon = sel[:-1] if sel.endswith("/") else sel
+            node = idx.get(canon)
+            if node is not None:
+                key = canon + "/.abstract" if node[0] == "dir" else sel + ".abstract"
+                lay += [("abs", i, t) for t in abstract_lines(idx.get(key, (None, None))[1])]
+    return lay
 
 
 ZHANDLERS = ("[url.HTMLURLHandler, gophermap.BuckGophermapHandler, mbox.MaildirFolderHandler, mbox.MaildirMessageHandler, "
@@ -671,7 +744,8 @@ def history_leg(chk, rng, thorough, hit, stats, scases, sel_cases):
     coqjobs = []
     stats.update({"histories": len(histories), "history_listings": 0, "history_mutations": 0, "history_menu_cases": 0})
     for h, r, fr in zip(histories, hres, fres):
-        pre, cases, keys = [PRE], [], []
+        pre, cases, keys = [], [], []
+        HP = "h%d_" % histories.index(h)
         stats["history_mutations"] += sum(1 for st in h["steps"] if st["op"] != "list")
         for si, (sn, ref) in enumerate(zip(h["snaps"], fr["res"])):
             if not ref.get("ok"):
@@ -715,11 +789,11 @@ def history_leg(chk, rng, thorough, hit, stats, scases, sel_cases):
                     sel_cases.append((h["selector"], 0, sn["has_map"], "history"))
                     if sn["has_map"] and buck:
                         k = len(pre)
-                        pre.append("Definition hx%d : list str := %s." % (k, coq_list([coq_str(x) for x in sn["existing"]])))
-                        pre.append("Definition hc%d : str := %s." % (k, coq_str(u(sn["map"]))))
+                        pre.append("Definition %sx%d : list str := %s." % (HP, k, coq_list([coq_str(x) for x in sn["existing"]])))
+                        pre.append("Definition %sc%d : str := %s." % (HP, k, coq_str(u(sn["map"]))))
                         for fixed in (True, False):
-                            cases.append("(%s, (((%s, false), (hc%d, hx%d)), (obs_menu %s)))" % (
-                                coq_bool(fixed), coq_str(h["selector"]), k, k, coq_str(u(o["out"].encode("latin-1")))))
+                            cases.append("(%s, (((%s, false), (%sc%d, %sx%d)), (obs_menu %s)))" % (
+                                coq_bool(fixed), coq_str(h["selector"]), HP, k, HP, k, coq_str(u(o["out"].encode("latin-1")))))
                             keys.append((fixed, dict(replay, is_mapfile=False, response_latin1=o["out"][:1500])))
                         stats["history_menu_cases"] += 1
         if cases:
@@ -752,7 +826,7 @@ def run(tier):
 
     # ---------------- small component correspondences: int(), dirname/basename ----------------
     ints = ["", "70", " 70 ", "+70", "-70", "- 70", "7_0", "_70", "70_", "7__0", "0_7", "007", "+", "-", "0x10", "1e3",
-            "\x0b70\x0c", "\x1c70", "70\x1f", "7 0", "--7", "+-7", "0" * 4299 + "7", "1" * 4301, "0" * 4301, "0_" * 4299 + "7", "0_" * 4300 + "7", "-" + "0" * 4299 + "5", "9" * 40,
+            "\x0b70\x0c", "\x1c70", "70\x1f", "7 0", "--7", "+-7", "0" * 4299 + "7", "1" * 4301, "0_" * 4299 + "7", "0_" * 4300 + "7", "9" * 40,
             "\t7\n", "7\r", "00", "-0", "+0_0", "9" * 25, "7_", "_", "__", "1_000_000", "+_1"]
     alpha = "0123456789_+- \t\x0b\x1cx."
     for _ in range(1500 if thorough else 400):
@@ -828,7 +902,14 @@ def run(tier):
                     maps[path] = data
                     sel = "/" + path if is_file else ("/" + d if d else "/")
                     meta.append({"selector": sel, "is_file": is_file, "depth": depth, "data": data, "stream": stream})
-            tree = tree_for(maps)
+            # abstracts: about 40% of the servable worlds run with abstracts switched on -- mostly the SHIPPED settings
+            # (abstract_headers = on, abstract_entries = always), some with 'unsupported' or headers off
+            absmode = None
+            if stream != "raising" and wi % 5 in (1, 3):
+                absmode = [(True, "always"), (True, "always"), (True, "unsupported"), (False, "always")][(wi // 5 + wi) % 4]
+            tree = tree_for(maps, gen_sidecars(rng, 0.6 if absmode else 0.15))
+            wconf = CONFIG if absmode is None else dict(CONFIG, pygopherd={"abstract_headers": "on" if absmode[0] else "off",
+                                                                         "abstract_entries": absmode[1]})
             reqs, rmeta = [], []
             if stream != "raising":
                 for mi, m in enumerate(meta):
@@ -836,9 +917,9 @@ def run(tier):
                         data, tls = gen.request_bytes(proto, m["selector"])
                         reqs.append({"data": gen.lat(data), "tls": tls})
                         rmeta.append((mi, proto, data, tls))
-            worlds.append({"op": "gm_world", "tree": tree, "config": CONFIG, "maps": [m["selector"] for m in meta],
+            worlds.append({"op": "gm_world", "tree": tree, "config": wconf, "maps": [m["selector"] for m in meta],
                            "requests": reqs, "_meta": meta, "_rmeta": rmeta, "_stream": stream, "_zip": None,
-                           "_existing": existing_selectors(tree)})
+                           "_existing": existing_selectors(tree), "_abs": absmode})
     # the same kinds of gophermaps INSIDE a ZIP archive, served through ZIP.ZIPHandler (a virtual file system)
     nzip = {"wf": 20, "padded": 8, "raising": 4} if thorough else {"wf": 4, "padded": 2, "raising": 1}
     GEN_PREFIX[0] = ZIPSEL.encode()
@@ -866,7 +947,7 @@ def run(tier):
                             rmeta.append((mi, proto, data, tls))
                 worlds.append({"op": "gm_world", "tree": tree, "config": ZCONFIG, "maps": [m["selector"] for m in meta],
                                "requests": reqs, "_meta": meta, "_rmeta": rmeta, "_stream": stream, "_zip": ZIPSEL,
-                               "_existing": members})
+                               "_existing": members, "_abs": None})
     finally:
         GEN_PREFIX[0] = b""
     import time as _time
@@ -883,29 +964,43 @@ def run(tier):
     wjobs = []                  # per world: (preamble, case literals, keys)
     stats = {"maps": 0, "lines": 0, "wf_lines": 0, "link_lines": 0, "info_lines": 0, "raising_maps": 0,
              "requests": 0, "oracle_entry_checks": 0, "oracle_protocol_checks": 0, "mapfile_relative_hits": 0,
-             "entry_list_cases": 0, "gopher_menu_cases": 0, "zip_maps": 0, "link_target_checks": 0}
+             "entry_list_cases": 0, "gopher_menu_cases": 0, "zip_maps": 0, "link_target_checks": 0, "abstract_worlds": 0,
+             "abstract_listings": 0, "abstract_items_checked": 0, "abstract_menu_cases": 0}
     EXC = {"IndexError": 0, "ValueError": 1}
     sample_comp = sample_e2e = None
-    for w, r in zip(worlds, wres):
-        pre = [PRE, "Definition ex : list str := %s." % coq_list([coq_str(s) for s in w["_existing"]])]
+    for wn, (w, r) in enumerate(zip(worlds, wres)):
+        P = "w%d_" % wn             # names are unique per world so that several worlds can share one shard file
+        pre = ["Definition %sex : list str := %s." % (P, coq_list([coq_str(s) for s in w["_existing"]]))]
         wcases, wkeys = [], []
         comps = r["res"]["components"]
 
-        wcfg = ZCONFIG if w["_zip"] else CONFIG
+        wcfg = w["config"]
+        idx = tree_index(w["tree"]) if w["_abs"] else None
+        acases, akeys = [], []
+        apre = []
+        if w["_abs"]:
+            sidecar = sorted(k for k, v in idx.items() if v[0] == "file" and k.endswith(".abstract"))
+            apre = ["Definition %sdirs : list str := %s." % (P, coq_list([coq_str(k) for k in sorted(idx) if idx[k][0] == "dir"])),
+                    "Definition %sabs : list (str * str) := %s." % (P, coq_list(
+                        ["(%s, %s)" % (coq_str(k), coq_str(u(idx[k][1]))) for k in sidecar]))]
+            stats["abstract_worlds"] += 1
 
-        def add_case(mi, m, obs, key, w=w, wcases=wcases, wkeys=wkeys):
+        def add_case(mi, m, obs, key, w=w, wcases=wcases, wkeys=wkeys, pre=pre, P=P):
+            # the observation is written once and named; both model variants refer to it
+            pre.append("Definition %so%d : observation := %s." % (P, len(wcases), obs))
+            obs = "%so%d" % (P, len(wcases))
             for fixed in (True, False):
                 if w["_zip"]:
-                    wcases.append("(%s, ((%s, ((%s, %s), (c%d, ex))), %s))" % (coq_bool(fixed), coq_str(w["_zip"]),
-                                                                             coq_str(m["selector"]), coq_bool(m["is_file"]), mi, obs))
+                    wcases.append("(%s, ((%s, ((%s, %s), (%sc%d, %sex))), %s))" % (coq_bool(fixed), coq_str(w["_zip"]),
+                                                                                 coq_str(m["selector"]), coq_bool(m["is_file"]), P, mi, P, obs))
                 else:
-                    wcases.append("(%s, (((%s, %s), (c%d, ex)), %s))" % (coq_bool(fixed), coq_str(m["selector"]),
-                                                                        coq_bool(m["is_file"]), mi, obs))
+                    wcases.append("(%s, (((%s, %s), (%sc%d, %sex)), %s))" % (coq_bool(fixed), coq_str(m["selector"]),
+                                                                            coq_bool(m["is_file"]), P, mi, P, obs))
                 wkeys.append((fixed, key))
 
         for mi, (m, c) in enumerate(zip(w["_meta"], comps)):
             stats["maps"] += 1
-            pre.append("Definition c%d : str := %s." % (mi, coq_str(u(m["data"]))))
+            pre.append("Definition %sc%d : str := %s." % (P, mi, coq_str(u(m["data"]))))
             lines = [u(l) for l in split_lines(m["data"])]
             stats["lines"] += len(lines)
             replay_base = {"selector": m["selector"], "is_mapfile": m["is_file"], "gophermap_latin1": lat(m["data"]),
@@ -1002,11 +1097,41 @@ def run(tier):
                 hit(f"render-failed:{proto}", dict(replay, what="the listing of a gophermap could not be read back as one item "
                                                                 "per line (exception or unexpected framing)"))
                 continue
-            # one rendered item per gophermap line, in file order, same entries in every protocol
-            if len(ds) != len(lines):
-                hit(f"item-count:{proto}", dict(replay, what="number of rendered items differs from number of gophermap lines",
-                                                lines=len(lines), items=len(ds)))
+            # one rendered item per gophermap line, in file order, same entries in every protocol -- and, with abstracts
+            # switched on, the documented abstract lines and nothing else
+            layout = expected_layout(idx, w["_abs"], m["selector"], m["is_file"], c["entries"], proto)
+            if len(c["entries"]) != len(lines):
+                continue                                            # reported at component level (entry-count)
+            if len(ds) != len(layout):
+                hit(f"item-count:{proto}", dict(replay, what="the listing is not one item per gophermap line (plus the documented "
+                                                             "abstract lines when abstracts are switched on)",
+                                                lines=len(lines), items=len(ds), expected_items=len(layout),
+                                                abstract_settings=w["_abs"], rendered=ds[:12],
+                                                expected_layout=[list(x) for x in layout[:12]]))
                 continue
+            if w["_abs"]:
+                stats["abstract_listings"] += 1
+                badk = None
+                for k, lay in enumerate(layout):
+                    if lay[0] == "line":
+                        continue
+                    stats["abstract_items_checked"] += 1
+                    text = lay[-1]
+                    if ds[k] != as_rendered(proto, text) or rits[k][1] is not None or \
+                            (items is not None and items[k] != ("i", text, "fake", "(NULL)", "0", False)):
+                        badk = k
+                        break
+                if badk is not None:
+                    hit(f"abstract-items:{proto}",
+                        dict(replay, what="an abstract line of the listing is not the documented one (header = the listed object's own "
+                                          "abstract; after an entry = that entry's own abstract)", item_index=badk,
+                             expected=list(layout[badk]), rendered=ds[badk], abstract_settings=w["_abs"]))
+                    continue
+                keep = [k for k, lay in enumerate(layout) if lay[0] == "line"]
+                ds = [ds[k] for k in keep]
+                rits = [rits[k] for k in keep]
+                if items is not None:
+                    items = [items[k] for k in keep]
             if ds != [as_rendered(proto, n) for n in names]:
                 hit(f"protocol-divergence:{proto}",
                     dict(replay, what="protocol renders other descriptions / another order than the entry list prepare() built",
@@ -1047,15 +1172,28 @@ def run(tier):
                 body = ob
                 if proto.endswith("plus"):
                     body = ob[re.match(rb"\+-?\d+\r\n", ob).end():]
-                if (mi, body) not in menus_seen:        # identical menu bytes are evaluated once
-                    menus_seen.add((mi, body))
-                    add_case(mi, m, "(obs_menu %s)" % coq_str(u(body)), dict(replay, kind="menu"))
-                    stats["gopher_menu_cases"] += 1
+                doabs = bool(w["_abs"]) and (w["_abs"][1] == "always" or (w["_abs"][1] == "unsupported" and not proto.endswith("plus")))
+                if (mi, body, doabs) not in menus_seen:        # identical menu bytes are evaluated once
+                    menus_seen.add((mi, body, doabs))
+                    if w["_abs"]:
+                        apre.append("Definition %sr%d : str := %s." % (P, len(acases), coq_str(u(body))))
+                        rname = "%sr%d" % (P, len(acases))
+                        for fixed in (True, False):
+                            acases.append("(%s, ((((%s, %s), (%sc%d, %sex)), (%sdirs, %sabs)), ((%s, %s), %s)))" % (
+                                coq_bool(fixed), coq_str(m["selector"]), coq_bool(m["is_file"]), P, mi, P, P, P,
+                                coq_bool(w["_abs"][0]), coq_bool(doabs), rname))
+                            akeys.append((fixed, dict(replay, kind="menu+abstracts", abstract_settings=w["_abs"])))
+                        stats["abstract_menu_cases"] += 1
+                    else:
+                        add_case(mi, m, "(obs_menu %s)" % coq_str(u(body)), dict(replay, kind="menu"))
+                        stats["gopher_menu_cases"] += 1
                 if sample_e2e is None and body:
                     sample_e2e = {"kind": "end-to-end", "protocol": proto, "selector": m["selector"],
                                   "response_latin1": out["out"][:200]}
         if wcases:
             wjobs.append(("\n".join(pre), wcases, wkeys, "chk_zworld" if w["_zip"] else "chk_world"))
+        if acases:
+            wjobs.append(("\n".join(pre + apre), acases, akeys, "chk_aworld"))
 
     # ---------------- histories in one long-lived process ----------------
     t_h0 = _time.time()
@@ -1066,13 +1204,23 @@ def run(tier):
     import concurrent.futures
     t_coq0 = _time.time()
 
+    # several worlds per shard file (coqc start-up dominates small shards)
+    batched = []
+    for checker in ("chk_world", "chk_zworld", "chk_aworld"):
+        group = [j for j in wjobs if j[3] == checker]
+        for k in range(0, len(group), 3):
+            part = group[k:k + 3]
+            batched.append((PRE + "\n" + "\n".join(j[0] for j in part), [c for j in part for c in j[1]],
+                            [key for j in part for key in j[2]], checker))
+    wjobs = batched
+
     def eval_world(arg):
         k, (pre, wcases, wkeys, checker) = arg
         return coq_eval("C09", "k_world_%d" % k, IMPORTS, checker, wcases, shard=100000, pre=pre)
 
     small = [("k_int", "chk_int", icases, 300), ("k_path", "chk_path", pcases, 400), ("k_select", "chk_select", scases, 400),
-             ("k_twin", "chk_twin", tcases, 250)]
-    with concurrent.futures.ThreadPoolExecutor(max_workers=6) as exr:
+             ("k_twin", "chk_twin", tcases, 500)]
+    with concurrent.futures.ThreadPoolExecutor(max_workers=8) as exr:
         fut_small = [exr.submit(coq_eval, "C09", nm, IMPORTS, ck, cs, sh, 600, PRE) for nm, ck, cs, sh in small]
         world_out = list(exr.map(eval_world, enumerate(wjobs)))
         (m_int, e_int, n1), (m_path, e_path, n2), (m_sel, e_sel, n3), (mt, et, n5) = [f.result() for f in fut_small]
@@ -1142,7 +1290,11 @@ def run(tier):
     chk.assumptions += [
         "file system enters the model as fs_exists/populate; in K a symlink-free scratch tree whose node list is passed to Coq; "
         "populate_core models only type/name/gopherpsupport/populated of populatefromfs (mimetype, size, times, abstracts: C04/C08/C15)",
-        "abstract_headers=off, abstract_entries=never, gemini/spartan footers removed, so that a listing is exactly the rendered entries",
+        "gemini/spartan footers removed; about 60% of the servable worlds run with abstract_headers=off, abstract_entries=never (a listing "
+        "is exactly the rendered entries), about 40% with abstracts on -- mostly the shipped abstract_headers=on, abstract_entries=always, "
+        "some 'unsupported' / headers off -- on trees with .abstract/.keywords/.ask/.3d sidecars for directories, files and stand-alone "
+        "map files; expected: lines of the LISTED object's own abstract first, every entry followed by the lines of its own abstract "
+        "(existing local target with a sidecar); abstract files are plain text (no trailing blanks / exotic line separators)",
         "int() modelled for ASCII input (Lib/PyInt.v); non-ASCII digits/spaces in a port field are outside the model",
         "link selectors of generated gophermaps avoid '..', './', '//' (DESIGN D15: they reach vfs.exists unfiltered; handled under C01)",
         "HTML/WML/gemini/spartan renderings are read back by the harness (description texts only); their markup is C06/C13's subject",
